@@ -11,5 +11,5 @@ PROP = {
  'level_note': 'Trusted base: the running-upload model in harness/C23.cpp (a repeated CHUNK for an in-flight (peer, chunk) counts as the same upload; an upload ends at the ACK or at '
                'start+timeout, the earliest instant the node may reuse the slot). Slot tables are read through NodeTestAccess.',
  'assumptions': ['clocks interposed', 'every frame the node writes to a peer socket is observed by the harness before the next operation'],
- 'tiers': {'quick': [rc(700)],
+ 'tiers': {'quick': [rc(1500)],
            'thorough': [rc(5000, W), fuzz(180, 8, max_len=8 + 8 * 50)]}}
